@@ -142,6 +142,11 @@ CLAIMED["C11"] = _p("The spec carries a table of C++ functions (spec/Fns.tla) wi
                     "by TLC against the function's meaning, so a captured, swapped or half-substituted argument, a lost include or a wrongly scoped result shows up as a "
                     "compile error or wrong value.", "DESIGN.md section 5 C11")
 
+CLAIMED["C18"] = _p("TLC enumerates the literal space (integers by magnitude class up to beyond 2^64, floats in every notation Python's repr produces incl. subnormal, largest "
+                    "finite and inf, booleans, strings of length 1-3 over quote, backslash, newline, percent, non-ASCII, brace, space, apostrophe) x positions (output value, "
+                    "bank name, tree name, column name). The model job logs the exact text of every scalar it writes, the bank strings it asks for and the names it books; "
+                    "TLC requires them to equal the literal (or the literal to be refused when it is not representable).", "DESIGN.md section 5 C18")
+
 PENDING = "check not built yet in this round (planned, see DESIGN.md section 11); not claimed until its machinery exists"
 
 
